@@ -37,7 +37,7 @@ CHECKS = {
  "C12": dict(
     text="LogSystem.tla restricted to Refresh(A|B)/Destroy/GetLogger/Write: invariants RoutesAsConfigured, LiveHandlesAreConfigured, NoCfgMeansConsole. All histories of length 5 plus simulated ones of length 9 are replayed (sync and async): a raw write must reach every appender of the named logger exactly once although one reference's level range admits nothing, verbatim although the caller overwrites its buffer after the call, and return (len, nil); same name gives the same handle; Refresh fails for an unconfigured handle name. A payload sweep (empty, 1 byte, binary, multi-line, 1 MiB) x 9 logger kinds x 1-8 concurrent writers recycling one buffer checks verbatim / exactly-once / per-writer order in recording appenders, files and the console stream.",
     note="Trusts TLC/SANY, Go toolchain, recording appender plugin. Queue-level ordering of raw writes is additionally covered by the AsyncLogger module.",
-    technique="TLA+ spec (LogSystem, write alphabet) model-checked with TLC; histories replayed + payload/kind/concurrency sweep",
+    technique="TLA+ specs (LogSystem, write alphabet; Shutdown, Destroy as a sequence of steps) model-checked with TLC; histories and shutdown scenarios replayed + payload/kind/concurrency sweep",
     design="4/C12", engine="lifecycle"),
  "C04": dict(
     text="AsyncLogger.tla has one action per channel operation (non-blocking send, Discard, DiscardOldest try/pop loop, blocking send, worker take/deliver, Stop marker send / wait). TLC checks per policy (2 producers, capacity 2): Conservation (every enabled item in exactly one of buffer/worker/delivered/dropped/in-flight), NoDuplicates, DisabledIgnored, BlockNeverDiscards, ConservationAtStop, plus the liveness property StopTerminates under worker fairness. AsyncGen.tla gives internal steps priority and emits every behaviour of 5 (quick) / 7 (thorough) external operations {event, disabled event, raw write, release worker, Stop} from occupancies 97..99 of a real 100-slot buffer plus simulated 14-operation behaviours with 3 producers; each is replayed on a Refresh-built AsyncLogger whose appender is gated, comparing delivery list, discard counter, parked item and returned/blocked calls at every settled state and conservation / FIFO / verbatim after Destroy. Randomized 1-32 producer runs on fast/slow/bursty appenders (incl. the suite's 5000+100 shape) are recorded and TLC evaluates the same laws on each recorded history.",
@@ -47,7 +47,7 @@ CHECKS = {
  "C05": dict(
     text="AsyncLogger.tla has one action per channel operation (non-blocking send, Discard, DiscardOldest try/pop loop, blocking send, worker take/deliver, Stop marker send / wait). TLC checks per policy (2 producers, capacity 2): ConservationAtStop (buffer empty, worker stopped, everything accepted delivered when Stop returns) and the liveness property StopTerminates; Stop is replayed at every occupancy including a full buffer (Stop itself blocked), with the worker idle / parked mid-append, plus the liveness property StopTerminates under worker fairness. AsyncGen.tla gives internal steps priority and emits every behaviour of 5 (quick) / 7 (thorough) external operations {event, disabled event, raw write, release worker, Stop} from occupancies 97..99 of a real 100-slot buffer plus simulated 14-operation behaviours with 3 producers; each is replayed on a Refresh-built AsyncLogger whose appender is gated, comparing delivery list, discard counter, parked item and returned/blocked calls at every settled state and conservation / FIFO / verbatim after Destroy. Randomized 1-32 producer runs on fast/slow/bursty appenders (incl. the suite's 5000+100 shape) are recorded and TLC evaluates the same laws on each recorded history.",
     note="Trusts TLC/SANY, Go toolchain, the gated recording appender (worker parked inside Append/Write). Negative observations ('still blocked') use a bounded wait on behaviour a correct implementation shows forever. Log calls concurrent with Stop are excluded by the property.",
-    technique='TLA+ spec (AsyncLogger) model-checked with TLC (+ refinement of AbstractFifo, + counter abstraction AsyncCounters with an inductive invariant discharged by Apalache and, in the thorough tier of C04, re-checked as a TLAPS proof); AsyncGen behaviours replayed on the real AsyncLogger via a gated appender; recorded multi-producer histories validated by TLC (AsyncHistory)',
+    technique='TLA+ spec (AsyncLogger) model-checked with TLC (+ refinement of AbstractFifo, + counter abstraction AsyncCounters with an inductive invariant discharged by Apalache and, in the thorough tier of C04, re-checked as a TLAPS proof); AsyncGen behaviours replayed on the real AsyncLogger via a gated appender; recorded multi-producer histories validated by TLC (AsyncHistory); Shutdown.tla (stop order of loggers and appenders) model-checked and its scenarios replayed',
     design="4/C04-C06", engine="asyncq"),
  "C06": dict(
     text="AsyncLogger.tla has one action per channel operation (non-blocking send, Discard, DiscardOldest try/pop loop, blocking send, worker take/deliver, Stop marker send / wait). TLC checks per policy (2 producers, capacity 2): ProducerFIFO, DiscardDropsArriving, DiscardOldestDropsHead, DiscardOldestKeepsArriving, NonBlocking (a producer under a discard policy always has an enabled step that does not involve the worker), BlockWaitsForSpace, plus the liveness property StopTerminates under worker fairness. AsyncGen.tla gives internal steps priority and emits every behaviour of 5 (quick) / 7 (thorough) external operations {event, disabled event, raw write, release worker, Stop} from occupancies 97..99 of a real 100-slot buffer plus simulated 14-operation behaviours with 3 producers; each is replayed on a Refresh-built AsyncLogger whose appender is gated, comparing delivery list, discard counter, parked item and returned/blocked calls at every settled state and conservation / FIFO / verbatim after Destroy. Randomized 1-32 producer runs on fast/slow/bursty appenders (incl. the suite's 5000+100 shape) are recorded and TLC evaluates the same laws on each recorded history.",
@@ -82,7 +82,7 @@ CHECKS = {
  "C20": dict(
     text="CrashPath.tla models calls that format, hand the line to the kernel with one write and return, with Crash (SIGKILL / os.Exit) enabled in every state and user-space buffers discarded by it; TLC checks AckedSurvive and NoUserBuffer, confirms that the buffered variant still violates AckedSurvive, and enumerates every crash placement (k acknowledged calls x kill/exit) for three goroutine/call shapes. Each placement is executed on a child process (sync logger -> file / rolling-file / console appender, both layouts) that acknowledges every returned call on a pipe; after the kill/exit every acknowledgement the parent read must have its complete line in the target exactly once. Direction B: six straced runs - the write(2) log is the trace and TLC validates it against Trace_Crash.tla (each acknowledgement preceded by exactly one write carrying the whole line); a trace with one acknowledgement moved before its write must be rejected.",
     note="Trusts TLC/SANY, Go toolchain, strace (ptrace permitted in the sandbox), and that a returned write(2) survives process death (not power loss: the property speaks about process crash/exit).",
-    technique="TLA+ spec (CrashPath) model-checked with TLC; crash placements replayed on a child process; strace system-call traces validated by TLC (Trace_Crash)",
+    technique="TLA+ spec (CrashPath, incl. calls that cannot be encoded) model-checked with TLC; crash placements replayed on a child process; strace system-call traces validated by TLC (Trace_Crash)",
     design="4/C20", engine="crash"),
  "C07": dict(
     text="Encoder.tla models the Encoder protocol as a grammar of well-nested call streams and both implementations as token machines written one action per method (JSON: comma iff the previous token was a value or a closing bracket; text: key=value at depth 0, an embedded JSON machine that is reset when the depth returns to 0). TLC enumerates every stream of <= 7 calls / depth 3 (quick) or 8 / 4 (thorough) and checks WellFormedJSON with an independent RFC 8259 recogniser and TextIsRewrittenJSON (the text line is the JSON line's top-level members rewritten key=value, string-like scalars unquoted). Each stream is built 3 (quick) / 10 (thorough) times through the public constructors (typed, pointer, Any, Reflect, typed slices, Object, a custom ArrayValue that replays nested calls) with boundary and seeded values and formatted by the real layouts: the JSON line must be exactly one line, pass encoding/json, decode (ordered scan) to the logged data - member order, exact integers over the int64/uint64 range, bit-exact floats, strings with one U+FFFD per invalid byte, null for nil pointers, json.Marshal text for reflected values, a JSON string for non-finite and unmarshallable values - and show the specification's token structure; map-sourced fields must come out sorted by key.",
